@@ -1,0 +1,37 @@
+//go:build verif
+
+package sqlite
+
+import (
+	"database/sql"
+
+	"github.com/resonatehq/resonate/internal/aio"
+	"github.com/resonatehq/resonate/internal/kernel/bus"
+	"github.com/resonatehq/resonate/internal/kernel/t_aio"
+	"github.com/resonatehq/resonate/internal/metrics"
+)
+
+// NewWithDB builds the store exactly as New does, but over a database handle
+// supplied by the caller (verification harness: fault-injecting driver).
+func NewWithDB(aio aio.AIO, metrics *metrics.Metrics, config *Config, db *sql.DB) (*SqliteStore, error) {
+	sq := make(chan *bus.SQE[t_aio.Submission, t_aio.Completion], config.Size)
+
+	return &SqliteStore{
+		config: config,
+		sq:     sq,
+		db:     db,
+		worker: &SqliteStoreWorker{
+			config:  config,
+			db:      db,
+			sq:      sq,
+			flush:   make(chan int64, 1),
+			aio:     aio,
+			metrics: metrics,
+		},
+	}, nil
+}
+
+// Worker exposes the store worker (Execute/Process) to the harness.
+func (s *SqliteStore) Worker() *SqliteStoreWorker {
+	return s.worker
+}
